@@ -90,7 +90,7 @@ void assign_svalue_no_free (svalue_t * to, svalue_t * from) {
       if (from->subtype & STRING_COUNTED)
         {
           INC_COUNTED_REF (to->u.string);
-/*	    ADD_STRING(MSTR_SIZE(to->u.string)); */
+          ADD_STRING (MSTR_SIZE (to->u.string));
         }
     }
   else if (from->type & T_REFED)
